@@ -17,7 +17,7 @@ Operations follow the source line by line:
 * `findCol`/`find`    — `find_column`, schema.py:550-569
 * `allColumnNames`    — `all_column_names`, schema.py:571-584
 * `columnNames`       — `column_names` (schema.py:586-589) and `__iter__` (schema.py:512-514)
-* `column`            — `column`, schema.py:591-605 (`isinstance(i, int)` → list indexing)
+* `column`            — `column`, schema.py:591-605 (`isinstance(i, int)` → list indexing, `bool` included)
 * `popCol`            — `pop_column`, schema.py:607-621
 -/
 namespace SchemaOps
@@ -92,11 +92,16 @@ def pyIndex {α : Type} (xs : List α) (i : Int) : Option α :=
   else if (-i).toNat ≤ xs.length then xs[xs.length - (-i).toNat]?
   else none
 
-/-- The argument of `column(i)`: an `int` (`bool` included, `isinstance(True, int)`) or a name. -/
+/-- The argument of `column(i)`: an `int`, a `bool` (which *is* an `int` for `isinstance`, `True` = 1,
+`False` = 0 — the dispatch is read from the source, `Gen.SchemaFns.column`) or a name. -/
 inductive Key (ν : Type) where
   | idx (i : Int)
+  | flag (b : Bool)
   | name (k : ν)
   deriving DecidableEq, Repr
+
+/-- `True` / `False` used as a list index. -/
+def boolIndex (b : Bool) : Int := if b then 1 else 0
 
 /-- What one operation returns. -/
 inductive Out (ι ν : Type) where
@@ -106,11 +111,15 @@ inductive Out (ι ν : Type) where
   | strs (l : List ν)               -- a list of names
   deriving DecidableEq, Repr
 
+/-- What `self.columns[i]` gives: the column, or `IndexError`. -/
+def Out.ofIndex : Option (Col ι ν) → Out ι ν
+  | some c => .col (some c)
+  | none => .indexError
+
 /-- `column(i)`. -/
 def column (cols : List (Col ι ν)) : Key ν → Out ι ν
-  | .idx i => match pyIndex cols i with
-    | some c => .col (some c)
-    | none => .indexError
+  | .idx i => Out.ofIndex (pyIndex cols i)
+  | .flag b => Out.ofIndex (pyIndex cols (boolIndex b))
   | .name k => .col (findCol id k cols)
 
 /-- `pop_column(name)`: remove the first column whose *name* (not alias) equals the argument. -/
@@ -205,5 +214,18 @@ def firstByKey {α κ : Type} [DecidableEq κ] (key : α → κ) : List α → L
 each identity only. -/
 def fresh (seen : List ι) (cs : List (Col ι ν)) : List (Col ι ν) :=
   firstByKey (·.identity) (cs.filter (fun c => c.identity ∉ seen))
+
+/-- The single-schema operations a program addresses to register `q`, in order (`add` addresses none:
+it only creates a new register). -/
+def opsOn (q : Nat) : List (POp ν) → List (Op ν)
+  | [] => []
+  | .on r op :: rest => if r = q then op :: opsOn q rest else opsOn q rest
+  | .add _ _ :: rest => opsOn q rest
+
+/-- The outputs of the operations addressed to register `q`. -/
+def outsOn (q : Nat) : List (POp ν) → List (POut ι ν) → List (Out ι ν)
+  | .on r _ :: rest, .out o :: os => if r = q then o :: outsOn q rest os else outsOn q rest os
+  | _ :: rest, _ :: os => outsOn q rest os
+  | _, _ => []
 
 end SchemaOps
